@@ -199,8 +199,10 @@ def rand_admg(rng, n, dag_only=False):
     dens = rng.choice((0.3, 0.45, 0.6, 0.8))
     if dag_only:
         return C.rand_dag_order_graph(rng, n, [("D>",)], density=dens)
-    if kind < 0.35:
+    if kind < 0.2:
         return C.rand_dag_order_graph(rng, n, [("D>",), ("D>",), ("B",)], density=dens)
+    if kind < 0.5:   # many crossing collider/non-collider routes: where a node's passability depends on its predecessor
+        return C.rand_dag_order_graph(rng, n, [("D>",), ("B",), ("B",)], density=rng.choice((0.5, 0.6, 0.7)))
     if kind < 0.7:
         return C.rand_dag_order_graph(rng, n, [("D>",), ("B",), ("D>", "B")], density=dens)   # bows
     if kind < 0.85:
@@ -254,14 +256,15 @@ def gen(ctx):
     # structured random, n = 5..7 (the order-dependent incompleteness of the unfixed DFS starts at 5)
     N = 2500 if tier == "quick" else 30000
     for j in range(N):
-        n = rng.choice((5, 5, 5, 6, 6, 7))
+        n = rng.choice((5, 5, 6, 6, 7, 7, 8))
         g = rand_admg(rng, n)
         if j % 3 == 0:
             g = C.shuffled_graph(rng, g)
         Q = []
         for _ in range(24):
             x, y = rng.sample(range(n), 2)
-            L, S = rand_ls(rng, [v for v in range(n) if v not in (x, y)])
+            L, S = rand_ls(rng, [v for v in range(n) if v not in (x, y)], pl=rng.choice((0.0, 0.2, 0.3, 0.5)),
+                           ps=rng.choice((0.0, 0.15, 0.3, 0.3)))
             Q.append([x, y, L, S])
         i += 1
         yield {"kind": "ipm", "g": g, "fam": fams[i % 5], "Q": Q, "src": "rnd-ip%d" % n}
@@ -416,7 +419,7 @@ def run(ctx):
     ev = ctx["ev"]
     ev.rule = ("inducing_path: every acyclic ADMG on 2-3 nodes (thorough: 2-4) over pair states {none,->,<-,<->,->+<->,<-+<->} x every "
                "ordered pair x every split of the other nodes into L/S/neither (plus guard queries with an endpoint in L or S), "
-               "quick adds a sample of the 4-node ones; random acyclic ADMGs n=5..7 (sparse/dense, bows, collider chains, shuffled "
+               "quick adds a sample of the 4-node ones; random acyclic ADMGs n=5..8 (sparse/dense, bows, collider chains, shuffled "
                "insertion order). dag_to_mag: every DAG on 1-3 nodes (thorough: 1-4) x every disjoint (L,S), random DAGs n=5..7; the "
                "all-subsets clauses (adjacency iff inseparable; m_sep(MAG,x,y,Z)=d_sep(D,x,y,Z u S) for all x,y,Z) are evaluated by "
                "Lean for n<=5 (thorough 6). Five label families; node arguments are fresh equal-but-not-identical objects. "
